@@ -294,19 +294,34 @@ pub fn run(out: &mut Out, tier: &str, rng: &mut Rng) {
         from_parts_case(out, rng, &toks);
         let canon = gen_call(|| LanguageIdentifier::from_bytes(&s).map(|x| x.to_string()).unwrap_or_default()).unwrap_or_default().into_bytes();
         out.case("li_eq_str", &[&s, &canon], || li_eq_str(&s, &canon));
+        // the canonical text with a NUL (or a space) inserted at one position is a different string
+        if !canon.is_empty() {
+            let pos = rng.below(canon.len() + 1);
+            for b in [0u8, b' '] {
+                let mut t = canon.clone(); t.insert(pos, b);
+                out.case("li_eq_str", &[&s, &t], || li_eq_str(&s, &t));
+            }
+            // ... in particular at the end of a subtag
+            if let Some(p) = canon.iter().position(|c| *c == b'-') { let mut t = canon.clone(); t.insert(p, 0); out.case("li_eq_str", &[&s, &t], || li_eq_str(&s, &t)); }
+            let mut t = canon.clone(); t.push(0); out.case("li_eq_str", &[&s, &t], || li_eq_str(&s, &t));
+        }
         out.case("li_cmp", &[&s, &canon], || li_cmp(&s, &canon));
         let mut m = s.clone(); m.extend_from_slice(*rng.pick(&[&b"-*"[..], b"-abcdefghi", b"-abcd", b"--", b"-u", b"-1"]));
         parse_ops(out, &m);
     }
     out.comment("C11: product domain for matches");
-    let langs = ["en", "fr", "und"]; let scripts = ["", "Latn", "Cyrl"]; let regions = ["", "US", "419"];
-    let vars = ["", "valencia", "macos", "macos-valencia"];
+    // (pa, az, uz, ar: languages of the right-to-left list whose likely script depends on the region - the identifiers on
+    // which a likelysubtags build could answer differently)
+    let langs = ["en", "fr", "und", "pa", "az", "uz"]; let scripts = ["", "Latn", "Cyrl", "Arab"]; let regions = ["", "US", "419", "PK", "AF"];
+    let vars = ["", "valencia"];
     let mut dom: Vec<String> = vec![];
     for l in langs { for s in scripts { for r in regions { for v in vars {
         let mut t = l.to_string();
         for p in [s, r, v] { if !p.is_empty() { t.push('-'); t.push_str(p); } }
         dom.push(t);
     } } } }
+    // variant lists of every length up to three over three variants (prefixes, suffixes, subsets of each other)
+    for l in ["en", "und-Latn"] { for v in ["1996", "fonipa", "valencia", "1996-fonipa", "1996-valencia", "fonipa-valencia", "1996-fonipa-valencia"] { dom.push(format!("{}-{}", l, v)); } }
     for a in dom.iter() { for b in dom.iter() { for f in 0..4u8 {
         let (ra, rb) = (f & 1 == 1, f & 2 == 2);
         let fa: &[u8] = if ra { b"1" } else { b"0" }; let fb: &[u8] = if rb { b"1" } else { b"0" };
